@@ -642,7 +642,159 @@ def c20_13(ctx):
                    fn, mod, key="parts-cover")]
 
 
+_BC32_ALPHABET = "qpzry9x8gf2tvdw0s3jn54khce6mua7l"
+_BC32_GEN = (0x3B6A57B2, 0x26508E6D, 0x1EA119FA, 0x3D4233DD, 0x2A1462B3)
+
+
+def _bc32_ref(data):
+    """bc32 (BCR-2020-004): bech32 without a human-readable part, checksum constant 0x3fffffff -- the reference the library is compared with"""
+    acc, bits, dd = 0, 0, []
+    for b in data:
+        acc = (acc << 8) | b
+        bits += 8
+        while bits >= 5:
+            bits -= 5
+            dd.append((acc >> bits) & 31)
+    if bits:
+        dd.append((acc << (5 - bits)) & 31)
+    chk = 1
+    for v in [0] + dd + [0] * 6:
+        top = chk >> 25
+        chk = (chk & 0x1FFFFFF) << 5 ^ v
+        for i in range(5):
+            chk ^= _BC32_GEN[i] if (top >> i) & 1 else 0
+    chk ^= 0x3FFFFFFF
+    return "".join(_BC32_ALPHABET[d] for d in dd + [(chk >> 5 * (5 - i)) & 31 for i in range(6)])
+
+
+def c20_16(ctx):
+    """bc32 decoding inverts encoding whatever the *spelling class* of the text: the decoder looks at the case of the text only through
+    lower() / upper() comparisons, so the cells are {all lower case, all upper case, mixed, no letters at all}.  A valid string without a single
+    letter exists (`27968439044904` encodes 578ba3d625, found by search and re-checked here against the reference encoder); lower and upper
+    spellings must decode, mixed spellings must not.  Payload lengths 0..40 are decoded as well (bounded)."""
+    from sa.cells import Evaluator, Raised, Undecided
+    spec_d, spec_e = "bech32:bc32decode", "bech32:bc32encode"
+    mod, fn = rl.get(ctx, spec_d)
+    mod2, fn2 = rl.get(ctx, spec_e)
+    if _bc32_ref(bytes.fromhex("578ba3d625")) != "27968439044904":
+        return [ctx.err(spec_d, "reference encoder disagrees with the recorded digit-only vector", fn, mod)]
+    out = []
+    try:
+        cases = []
+        for L in range(0, 41):
+            data = bytes((37 * i + 11) & 0xFF for i in range(L))
+            cases.append((data, _bc32_ref(data), "lower case"))
+        cases.append((bytes.fromhex("578ba3d625"), "27968439044904", "no letters at all"))
+        t = _bc32_ref(bytes(range(7)))
+        cases.append((bytes(range(7)), t.upper(), "all upper case"))
+        mixed = "".join(c.upper() if i % 2 and c.isalpha() else c for i, c in enumerate(t))
+        for data, text, label in cases:
+            ctx.count("cells")
+            try:
+                enc = Evaluator(ctx.repo).call(spec_e, [data]) if label == "lower case" else None
+            except Raised as x:
+                enc = "raises %s" % x.name
+            if label == "lower case" and enc != text:
+                out.append(ctx.bad(spec_e, "bc32encode of %d bytes is %r, the reference gives %r" % (len(data), enc, text), fn2, mod2, key="bc32-enc"))
+                break
+            try:
+                dec = Evaluator(ctx.repo).call(spec_d, [text])
+            except Raised as x:
+                dec = "raises %s" % x.name
+            if dec != data:
+                out.append(ctx.bad(spec_d, "a valid bc32 string with %s (%r, %d payload bytes) decodes to %r instead of its payload" % (label, text[:24], len(data), dec if not isinstance(dec, bytes) else dec.hex()),
+                                   fn, mod, key="bc32-case"))
+                break
+        else:
+            if mixed != t and mixed != t.upper():
+                ctx.count("cells")
+                try:
+                    dec = Evaluator(ctx.repo).call(spec_d, [mixed])
+                except Raised:
+                    dec = None
+                if dec is not None:
+                    out.append(ctx.bad(spec_d, "the mixed-case spelling %r is decoded; bc32 / bech32 refuse mixed case" % mixed[:24], fn, mod, key="bc32-case"))
+    except Undecided as u:
+        return [ctx.err(spec_d, "bc32 codec not evaluable: %s" % u, fn, mod)]
+    if not out:
+        out.append(ctx.ok(spec_d, "decodes lower-case, upper-case and letter-free spellings of valid strings, refuses mixed case; inverts the encoder on payloads of 0..40 bytes", fn, mod,
+                          key="bc32-case"))
+    return out
+
+
+def c20_14(ctx):
+    """CBOR byte-string framing: cbor_decode(cbor_encode(x)) = x and the prefix is the shortest form, for payload lengths on both sides of every
+    boundary (0, 1, 23, 24, 25, 254, 255, 256, 257, 65534, 65535, 65536, 70000) -- writer and reader evaluated together"""
+    from sa.cells import Evaluator, FileStandIn, Raised, Undecided
+    spec_e, spec_d = "bech32:cbor_encode", "bech32:cbor_decode"
+    mod, fn = rl.get(ctx, spec_e)
+    mod2, fn2 = rl.get(ctx, spec_d)
+
+    def prefix(n):
+        if n <= 23:
+            return bytes([0x40 + n])
+        if n <= 255:
+            return bytes([0x58, n])
+        if n <= 65535:
+            return b"\x59" + n.to_bytes(2, "big")
+        return b"\x60" + n.to_bytes(4, "big")   # the library's (non-standard) 4-byte tag, fixed by its own reader
+    try:
+        for n in (0, 1, 23, 24, 25, 254, 255, 256, 257, 65534, 65535, 65536, 70000):
+            ctx.count("cells")
+            data = bytes([0x5A]) * n
+            try:
+                enc = Evaluator(ctx.repo, externals={"BytesIO": lambda b: FileStandIn(b)}).call(spec_e, [data])
+            except Raised as x:
+                return [ctx.bad(spec_e, "cbor_encode of %d bytes raises %s" % (n, x.name), fn, mod, key="cbor-roundtrip")]
+            try:
+                dec = Evaluator(ctx.repo, externals={"BytesIO": lambda b: FileStandIn(b)}).call(spec_d, [enc])
+            except Raised as x:
+                dec = "raises %s" % x.name
+            if dec != data:
+                return [ctx.bad(spec_d, "cbor_decode(cbor_encode(x)) for a %d-byte payload gives %s: the reader does not accept what the writer emits (prefix %s)" % (
+                    n, "None" if dec is None else (dec if isinstance(dec, str) else "%d bytes" % len(dec)), enc[:5].hex() if isinstance(enc, bytes) else enc), fn2, mod2, key="cbor-roundtrip")]
+            if n < 65536 and enc[:len(prefix(n))] != prefix(n):
+                return [ctx.bad(spec_e, "a %d-byte payload is framed with the prefix %s; the shortest CBOR form is %s" % (n, enc[:len(prefix(n)) + 1].hex(), prefix(n).hex()), fn, mod,
+                                key="cbor-roundtrip")]
+    except Undecided as u:
+        return [ctx.err(spec_e, "CBOR codec not evaluable: %s" % u, fn, mod)]
+    return [ctx.ok(spec_e, "reader inverts writer and the prefix is the shortest form on both sides of every length boundary (13 lengths)", fn, mod, key="cbor-roundtrip")]
+
+
+def c20_15(ctx):
+    """the parser of one part (`ur:bytes/<x>of<y>/<digest>/<piece>`) is total on what the encoder emits: a *piece* of a multi-part UR can be
+    as short as one character, so no refusal may depend on the length of the payload text"""
+    spec = "bcur:_parse_bcur_helper"
+    mod, fn = rl.get(ctx, spec)
+    cfg = cfg_of(fn)
+    f = Folder(ctx.repo, mod.name)
+    # the names the payload travels under: first element of the returned tuple, through its definitions
+    pay = set()
+    for n in cfg.returns():
+        v = n.ast.value if n.ast is not None else None
+        if isinstance(v, ast.Tuple) and v.elts and isinstance(v.elts[0], ast.Name):
+            pay.add(v.elts[0].id)
+    if not pay:
+        return [ctx.err(spec, "the payload returned by the part parser was not found", fn, mod)]
+    for n in cfg.nodes:
+        if n.kind != "raise":
+            continue
+        for t in cfg.tests():
+            if not any(b == n.id for b, _ in cfg.succ[t.id]):
+                continue
+            for c in ast.walk(t.ast):
+                if isinstance(c, ast.Call) and call_name(c) == "len" and c.args and isinstance(c.args[0], ast.Name) and c.args[0].id in pay and isinstance(t.ast, ast.Compare):
+                    bound = next((f.fold(x) for x in [t.ast.left] + list(t.ast.comparators) if isinstance(f.fold(x), int)), None)
+                    return [ctx.bad(spec, "`%s` refuses a part because of the length of its payload text%s: BCURMulti.encode emits pieces of 1 .. chunk-size characters, so a short "
+                                          "last piece (or a small chunk size) makes the parts unparsable" % (ast.unparse(t.ast), " (bound %d)" % bound if bound is not None else ""),
+                                    t.ast, mod, key="part-total")]
+    return [ctx.ok(spec, "no refusal of a part depends on the length of its payload text", fn, mod, key="part-total")]
+
+
 OBLIGATIONS = [
+    ("C20.16", "CELLS bc32 spelling", c20_16),
+    ("C20.14", "CELLS cbor round trip (bounded)", c20_14),
+    ("C20.15", "TOTALITY part parser", c20_15),
 
     ("C20.12", "SHARED", c20_12),
     ("C20.11", "SET-ORDER", c20_11),
